@@ -272,18 +272,23 @@ pub fn run(ctx: &RunCtx) -> i32 {
                 _ => Some(Framing { cuts: vec![(len / 3).max(1), (len / 3).max(1)], ..Default::default() }),
             };
             let req = form.request(framing);
-            let cfg = crate::monitor::c05::auth_cfg(&secrets, HostCfg::None);
+            let mut cfg = crate::monitor::c05::auth_cfg(&secrets, HostCfg::None);
+            // (every fourth form: a custom route is installed that does not match the request)
+            let routed = i % 4 == 3;
+            if routed {
+                cfg.route = Some((RoutePolicy::Never, false, false));
+            }
             let (out, events) = run_once(&rt, &cfg, None, &req);
             let b = backend_events(&events);
             let styles = if form.field_styles.iter().any(|s| *s != 0) { "mixed-part-headers" } else { "plain-part-headers" };
             let pre = if form.preamble.is_empty() { "no-preamble" } else { "crlf-preamble" };
             if b.len() == 1 && b[0].op == "PutObject" {
-                r.held(format!("post-form/{styles}/{pre}/{cclass}"));
+                r.held(format!("post-form/{styles}/{pre}/{cclass}{}", if routed { "/unrelated-route" } else { "" }));
             } else {
                 let kind = if b.is_empty() { "not-dispatched".to_owned() } else { format!("diverted-to/{}", b[0].op) };
                 r.violated(
                     format!("C01/PostObject/{kind}/{}", out.response().and_then(RawResponse::error_code).unwrap_or_default()),
-                    json!({"kind": "post-form", "form": form, "outcome": out.to_json(), "backend": b.iter().map(|x| x.op).collect::<Vec<_>>(), "part_headers": styles, "preamble": pre}),
+                    json!({"kind": "post-form", "form": form, "unrelated_route_installed": routed, "outcome": out.to_json(), "backend": b.iter().map(|x| x.op).collect::<Vec<_>>(), "part_headers": styles, "preamble": pre}),
                 );
             }
         }
@@ -315,7 +320,11 @@ pub fn replay(v: &Value) -> i32 {
             let form: crate::monitor::c10::Form = serde_json::from_value(w["form"].clone()).unwrap_or_else(|e| harness_error(&format!("bad form: {e}")));
             // (the policy of the recorded form may have expired meanwhile; s3s does not look at the expiration - see C10)
             let secrets = crate::monitor::c05::secrets(v["seed"].as_u64().unwrap_or(1));
-            let (out, events) = run_once(&rt, &crate::monitor::c05::auth_cfg(&secrets, HostCfg::None), None, &form.request(None));
+            let mut cfg = crate::monitor::c05::auth_cfg(&secrets, HostCfg::None);
+            if w["unrelated_route_installed"] == true {
+                cfg.route = Some((RoutePolicy::Never, false, false));
+            }
+            let (out, events) = run_once(&rt, &cfg, None, &form.request(None));
             let b = backend_events(&events);
             if b.len() == 1 && b[0].op == "PutObject" {
                 r.held("replay");
